@@ -30,14 +30,19 @@ import gen_designs  # noqa: E402
 
 # ------------------------------------------------------------------ name pools
 
-SANI_POOL = ['w 0', 'w 1', 'a b', 'x-y', 'p.q', 'd[3]', '1st', "q'", 'wire', 'reg', 'module', 'input',
+SANI_POOL = ['w 0', 'w 1', 'a b', 'x-y', 'p.q', 'd[3]', '1st', "q'x", 'wire', 'reg', 'module', 'input',
              'output', 'always', 'begin', 'end', 'assign', 'if', 'case', 'x y z', 'a+b', 'sig#', '2x4',
-             'é', 'not', 'or', 'and', 'xor', 'signed', 'time', 'w 00', 'w 01']
+             'h~', 'not', 'or', 'and', 'xor', 'signed', 'time', 'w 00', 'w 01']
 ZERO_FAMILIES = [['x1', 'x01', 'x001'], ['y2', 'y02'], ['n0', 'n00', 'n000'], ['a1b2', 'a01b2', 'a1b02'],
-                 ['k7', 'k07', 'k007', 'k0007'], ['7', '07'], ['z_3', 'z_03'], ['v10', 'v010']]
+                 ['k7', 'k07', 'k007', 'k0007'], ['z_3', 'z_03'], ['v10', 'v010']]
 PLAIN_POOL = ['alpha', 'beta2', 'beta10', 'g_1', 'g_2', 'g_11', 'sum', 'carry', 'state', 'nxt', 'Data9', 'data10',
               'acc', 'acc_1', 'q', 'p3', 'p20', 'p100', 'sel', 'en', 'we', 'addr', 'din', 'dout', '_u', 'u$1',
-              'A', 'a', 'B7', 'b07x'.replace('07', '70')]
+              'A', 'a', 'B7', 'b70x']
+
+
+# output_to_verilog has no rendering for the 'n' (nand) op: designs to export avoid it
+OPS_NO_NAND = ['&', '|', '^', '~', '+', '-', '*', '<', '>', '==', '!=', '<=', '>=', 'mux', 'concat', 'slice',
+               'index', 'const', 'trunc', 'zext', 'sext', 'memrd', 'romrd', 'select']
 
 
 def needs_sanitising(name):
@@ -110,7 +115,7 @@ def build(spec, noise):
     rng = random.Random(spec['seed'])
     cls = spec['cls']
     d = gen_designs.make_design(rng, wide_prob=0.05, n_ops=rng.randint(4, spec.get('max_ops', 18)),
-                                allow_rom=(cls != 'memtie'))
+                                allow_rom=(cls != 'memtie'), ops_subset=OPS_NO_NAND)
     block = d.block
     if cls == 'memtie':
         _add_shared_enable_ports(d, rng)
@@ -144,8 +149,7 @@ def build(spec, noise):
             for w, nm in zip(chosen, rng.sample(fam, n)):
                 w.name = nm
                 for lst in (free_named, free_inner):
-                    if w in lst:
-                        lst.remove(w)
+                    lst[:] = [x for x in lst if x is not w]
     if cls == 'plain' and rng.random() < 0.7:
         cands = [w for w in named + inner]
         targets = rng.sample(cands, min(len(cands), rng.randint(1, 8)))
@@ -240,8 +244,12 @@ def run_export(spec, noise, textdir):
     res = {'key': spec['key'], 'fp': fingerprint(block)}
     names = [w.name for w in block.wirevector_set]          # the schedule, as observed
     res['set_order'] = names
-    res['net_order'] = [n.dests[0].name if n.dests else '@' + str(n.args[2]) for n in block.logic]
-    res['kinds'] = {w.name: type(w).__name__ for w in block.wirevector_set}
+    res['kinds'] = [type(w).__name__ for w in block.wirevector_set]     # parallel to set_order
+    # nets in Block.logic iteration order: [op, dest name, memid, str(write-enable), write-enable name]
+    res['nets'] = [[n.op, n.dests[0].name if n.dests else None,
+                    n.op_param[0] if n.op in 'm@' else None,
+                    str(n.args[2]) if n.op == '@' else None,
+                    n.args[2].name if n.op == '@' else None] for n in block.logic]
     sim, tracer = simulate(block, stim, track='all' if opts['track_all'] else 'named')
     res['tracked_order'] = [w.name for w in tracer.wires_to_track]
     texts = {}
@@ -334,7 +342,7 @@ PIPELINES = [('synthesize', _p_synth), ('optimize', _p_opt), ('synthesize+optimi
 def run_passes(spec, noise, textdir):
     res = {'key': spec['key'], 'pipelines': {}}
     for pname, fn in PIPELINES:
-        d, stim, opts = build(spec, noise if pname == PIPELINES[0][0] else 0)
+        d, stim, opts = build(spec, noise)
         block = d.block
         if 'fp' not in res:
             res['fp'] = fingerprint(block)
@@ -418,9 +426,8 @@ def readonly_calls(d, tracer_box):
         pyrtl.area_estimation(block=block)
 
     def c_paths():
-        p = pyrtl.analysis.paths(block=block) if hasattr(pyrtl, 'analysis') else None
-        if p is not None:
-            p.print(file=sio())
+        p = pyrtl.analysis.paths(block=block)
+        p.print(file=sio())
         ins = sorted(block.wirevector_subset(pyrtl.Input), key=lambda w: w.name)
         outs = sorted(block.wirevector_subset(pyrtl.Output), key=lambda w: w.name)
         pyrtl.analysis.paths(src=ins[0], dst=outs[0], block=block)
